@@ -15,6 +15,7 @@ import (
 //	position | import
 
 type itypePos struct {
+	named bool // only with a qualified import of the API
 	name  string
 	decls string // package-level declarations (use %[1]s for the program id, %[2]s for the qualifier)
 	body  string // statements that end with a range over the iterator (the loop header is given as %[3]s ... {)
@@ -29,6 +30,8 @@ var itypePositions = []itypePos{
 	{name: "embedded", decls: "type %[1]s_eb struct {\n\t%[2]sIter[int]\n\tn int\n}", body: "b := %[1]s_eb{%[1]s_g(c), 1}\n\tif b.MoveNext() {\n\t\tc.X(2, b.Current())\n\t}\n\tvar it %[2]sIter[int] = b", expr: "it"},
 	// the embedded field referred to by its name: the name follows the type and changes with it (open finding)
 	{name: "embeddedname", decls: "type %[1]s_eb struct {\n\t%[2]sIter[int]\n\tn int\n}", body: "b := %[1]s_eb{Iter: %[1]s_g(c)}", expr: "b.Iter"},
+	// a local type that merely has the name Iter (possible with a qualified API import only)
+	{name: "foreignembedded", named: true, body: "type Iter struct{ n int }\n\ttype wrap struct {\n\t\tIter\n\t\tk int\n\t}\n\tw := wrap{Iter: Iter{4}, k: 1}\n\tc.X(2, w.Iter.n+w.n+w.k)", expr: "%[1]s_g(c)"},
 	{name: "alias", decls: "type %[1]s_it = %[2]sIter[int]", body: "var it %[1]s_it = %[1]s_g(c)", expr: "it"},
 	{name: "namedfunc", decls: "type %[1]s_mk func(c *rt.Ctx) %[2]sIter[int]", body: "var mk %[1]s_mk = %[1]s_g", expr: "mk(c)"},
 	{name: "mapval", body: "m := map[string]%[2]sIter[int]{\"a\": %[1]s_g(c)}", expr: "m[\"a\"]"},
@@ -54,6 +57,28 @@ var itypePositions = []itypePos{
 	{name: "pkgvar", decls: "var %[1]s_keep %[2]sIter[int]", body: "%[1]s_keep = %[1]s_g(c)", expr: "%[1]s_keep"},
 	{name: "structofslice", decls: "type %[1]s_hold struct{ all []%[2]sIter[int] }", body: "h := %[1]s_hold{}\n\th.all = append(h.all, %[1]s_g(c))", expr: "h.all[0]"},
 	{name: "closurecapture", body: "it := %[1]s_g(c)\n\tnext := func() (int, bool) {\n\t\tif !it.MoveNext() {\n\t\t\treturn 0, false\n\t\t}\n\t\treturn it.Current(), true\n\t}\n\tv0, ok0 := next()\n\tc.X(2, fmt.Sprint(v0, ok0))", expr: "it"},
+}
+
+// NAMES family (C11 only): identifiers of the program that collide with names the generated code uses.
+var namePositions = []itypePos{
+	// a local variable named like the element type (open finding: the generated combinator calls name the type in that scope)
+	{name: "elemshadow", decls: "type %[1]s_el struct{ n int }\n\nfunc %[1]s_gs(c *rt.Ctx) %[2]sIter[%[1]s_el] {\n\t%[1]s_el := %[1]s_el{c.V(10)}\n\t%[2]sYield(%[1]s_el)\n\t%[1]s_el.n++\n\t%[2]sYield(%[1]s_el)\n\treturn nil\n}", body: "for e := range %[1]s_gs(c) {\n\t\tc.X(91, e.n)\n\t}", expr: "%[1]s_g(c)"},
+	// a parameter named like the element type is fine: the result type is resolved outside the body... but the combinator calls are not
+	{name: "elemparam", decls: "type %[1]s_el struct{ n int }\n\nfunc %[1]s_gs(c *rt.Ctx, %[1]s_el int) %[2]sIter[int] {\n\t%[2]sYield(%[1]s_el)\n\treturn nil\n}", body: "for e := range %[1]s_gs(c, 3) {\n\t\tc.X(91, e)\n\t}", expr: "%[1]s_g(c)"},
+	// locals named like predeclared identifiers the generated code relies on
+	{name: "localnil", decls: "func %[1]s_gs(c *rt.Ctx) %[2]sIter[int] {\n\tfor i := 0; ; i++ {\n\t\tif i > 1 {\n\t\t\tbreak\n\t\t}\n\t\t%[2]sYield(c.W(3, i))\n\t}\n\treturn nil\n}", body: "for e := range %[1]s_gs(c) {\n\t\tc.X(91, e)\n\t}", expr: "%[1]s_g(c)"},
+}
+
+func namesFamily(tier string) *FamilySpec {
+	fs := &FamilySpec{Name: "NAMES", ShardSize: 60, Reductions: dimReductions([]string{"localnil", "dot"})}
+	fs.Template = pipeline.Spec{DeriveRef: true}
+	for _, p := range namePositions {
+		for _, imp := range []string{"dot", "named"} {
+			id := fmt.Sprintf("P%05d", len(fs.Progs))
+			fs.Progs = append(fs.Progs, pipeline.Prog{ID: id, Key: p.name + "|" + imp, S: itypeText(id, p, imp), Proc: true, OwnFile: true})
+		}
+	}
+	return fs
 }
 
 func itypeText(id string, p itypePos, imp string) string {
@@ -88,6 +113,9 @@ func itypeFamily(tier string) *FamilySpec {
 	fs.Template = pipeline.Spec{DeriveRef: true}
 	for _, p := range itypePositions {
 		for _, imp := range []string{"dot", "named"} {
+			if p.named && imp == "dot" {
+				continue
+			}
 			id := fmt.Sprintf("P%05d", len(fs.Progs))
 			fs.Progs = append(fs.Progs, pipeline.Prog{ID: id, Key: p.name + "|" + imp, S: itypeText(id, p, imp), Proc: true, OwnFile: true})
 		}
